@@ -65,6 +65,10 @@ def jobs_for(d, only=None, names=None):
     return jobs, not_under, info, cat
 
 
+# capacities of the small-scope refutation pass (fallback when a quantified obligation stays undecided): up to 2 registered handles, 7 earlier objects
+SMALL = {'KMAX': 5, 'KSLACK': 2, 'HMAX': 8, 'VMAXV': 64, 'OMAX': 136, 'OSLACK': 128}
+
+
 def run_jobs(d, jobs, tier):
     tmo = 900 if tier == 'quick' else 3600      # init_mms: the slowest single obligation (REG_WF_C after the call) needs ~2-6 min with z3 5.1
 
@@ -72,9 +76,9 @@ def run_jobs(d, jobs, tier):
         cname, hf, repl, loops = j
         if cname == 'reg_witness':
             return j, cbmc_job(d, cname, hf, 'reg_witness', enforce=None, smt=True, timeout=tmo, solvers=['z3new', 'z3'], canary_timeout=90,
-                               own_prefixes=('reg_witness',), split=True, split_workers=4)
+                               own_prefixes=('reg_witness',), split=True, split_workers=4, small_scope=SMALL)
         return j, cbmc_job(d, cname, hf, 'h_' + cname, enforce=cname, replace=repl, loop_contracts=loops, smt=True, timeout=tmo,
-                           solvers=['z3new', 'z3'], canary_timeout=60, split=True, split_workers=12 if cname == 'reg__init_mms' else 4)
+                           solvers=['z3new', 'z3'], canary_timeout=60, split=True, split_workers=12 if cname == 'reg__init_mms' else 4, small_scope=SMALL)
 
     with ThreadPoolExecutor(max_workers=6) as ex:
         return list(ex.map(work, jobs))
